@@ -50,6 +50,7 @@ def run(ctx):
     rep.rule("C24.R2", "query-updated history state is not reset by re-assembly", 1)
     rep.rule("C24.R3", "set_new_initial_state / deepcopy", 5)
     rep.rule("C24.R4", "contact re-assembly", 2)
+    rep.rule("C24.R5", "registration markers (nq, nu, nla_*) are constructor data", 12)
     model = ctx.model
     # ---- R1
     for cname in ("PositionOrientationBase", "ProjectedPositionOrientationBase"):
@@ -128,6 +129,23 @@ def run(ctx):
                 else:
                     rep.bad("C24.R2", C, s.node, f"`self.{a}` is history state updated by a query method, but assembler_callback re-initialises it unconditionally: "
                             f"re-assembling at a restart (set_new_initial_state) forgets the accumulated value", f"{c2.rel}:{s.node.lineno}")
+    # ---- R5 (shared with C14.R7a): a restart re-runs assemble; markers created by the first assembly change the layout
+    from .. import sysmodel
+    sm = sysmodel.SystemModel(ctx)
+    markers = {n.args[1].value for n in ast.walk(sm.system.methods["assemble"]) if isinstance(n, ast.Call) and dotted(n.func) == "hasattr" and len(n.args) == 2
+               and isinstance(n.args[1], ast.Constant) and isinstance(n.args[0], ast.Name) and n.args[0].id == "contr" and str(n.args[1].value).startswith("n")}
+    skipm = ("cardillo/system.py", "cardillo/solver/", "cardillo/visualization/", "cardillo/utility/", "cardillo/math/", "cardillo/rods/discretization/")
+    for c3 in model.all_classes():
+        if c3.rel.startswith(skipm):
+            continue
+        for mk in sorted(markers):
+            for st in c3.stores.get(mk, []):
+                C = f"{c3.rel}:{c3.qual}.{st.method}"
+                if st.method == "__init__":
+                    rep.ok("C24.R5", C, f"self.{mk} is constructor data")
+                else:
+                    rep.bad("C24.R5", C, st.node, f"`self.{mk}` (System's marker for owning {mk[1:]}-index sets) is created in `{st.method}`: after the first assembly "
+                            f"set_new_initial_state reads {c3.name}.my_{mk[1:]}DOF / q0 that were never assigned, so the system cannot be restarted", f"{c3.rel}:{st.node.lineno}")
     # ---- R3
     sysc = model.cls("System", SYS)
     fn = sysc.methods.get("set_new_initial_state")
@@ -194,6 +212,8 @@ MUTANTS = [
     dict(id="c24-m0", canary=True, what="joint frames re-derived on every assembly (original defect)", file=BASE,
          old="        if not hasattr(self, \"_joint_frames\"):\n            self._joint_frames = (B1_r_P1J0, B2_r_P2J0, A_K1J0, A_K2J0)\n        auxiliary_functions(self, *self._joint_frames)\n\n    def g(self, t, q):\n        g = np.zeros(self.nla_g, dtype=q.dtype)\n        g[:3]",
          new="        auxiliary_functions(self, B1_r_P1J0, B2_r_P2J0, A_K1J0, A_K2J0)\n\n    def g(self, t, q):\n        g = np.zeros(self.nla_g, dtype=q.dtype)\n        g[:3]", expect="C24.R1"),
+    dict(id="c24-m6", what="Sphere2Plane creates the markers nq/nu during assembly (original defect; restart raises IndexError)", file="cardillo/contacts/sphere2plane.py",
+         old="        self._nq = len(self.qDOF)\n", new="        self.nq = len(self.qDOF)\n", expect="C24.R5"),
     dict(id="c24-m1", canary=True, what="set_new_initial_state distributes q0 with the concatenated qDOF of interactions", file=SYS,
          old="                contr.q0 = q0[contr.my_qDOF]", new="                contr.q0 = q0[contr.qDOF]", expect="C24.R3"),
     dict(id="c24-m2", what="set_new_initial_state forgets to re-assemble", file=SYS,
@@ -201,8 +221,8 @@ MUTANTS = [
     dict(id="c24-m3", what="set_new_initial_state ignores the new time", file=SYS,
          old="        self.t0 = t0 if t0 is not None else self.t0\n", new="", expect="C24.R3"),
     dict(id="c24-m4", canary=True, what="Sphere2Plane.assembler_callback re-derives the radius from the current gap", file="cardillo/contacts/sphere2plane.py",
-         old="        self.nu = len(self.uDOF)\n\n        self.r_OP = lambda t, q: self.subsystem.r_OP(",
-         new="        self.nu = len(self.uDOF)\n        self.r = self.r + 0.0\n\n        self.r_OP = lambda t, q: self.subsystem.r_OP(", expect="C24.R4"),
+         old="        self._nu = len(self.uDOF)\n\n        self.r_OP = lambda t, q: self.subsystem.r_OP(",
+         new="        self._nu = len(self.uDOF)\n        self.r = self.r + 0.0\n\n        self.r_OP = lambda t, q: self.subsystem.r_OP(", expect="C24.R4"),
     dict(id="c24-m5", what="System.deepcopy becomes a shallow copy", file=SYS, old="        return deepcopy(self)", new="        from copy import copy\n        return copy(self)", expect="C24.R3"),
 ]
 NEUTRAL = []
